@@ -21,7 +21,8 @@ class QuaSvList(TimedList[QuaSv]):
         return QuaSvList(df)
 
     def to_yaml(self):
-        df = self.df.copy()
+        # Only the fields of the format: a frame may carry user columns
+        df = self.df.loc[:, [c for c in self.df.columns if c in ("offset", "multiplier")]]
         return (
             df.astype(dict(offset=int, multiplier=float))
             .rename(dict(offset="StartTime", multiplier="Multiplier"), axis=1)
